@@ -29,8 +29,11 @@ package main
 //                closed and no driver statement is open; that handle (and every handle sharing its struct) returns an
 //                error; when it is the database's own cache (Config.PrepareStmt root) a prepared session obtained
 //                AFTERWARDS from any handle returns an error too and no PrepareContext reaches the pool.
-//   Latitude (F14a, listed): handles whose struct was NOT the one Reset/Close went through keep the old map; nothing
-//   is demanded from them after a Reset/Close (they are not used again).
+//   Latitude (F14a, while the regenerated facts say Session builds a SECOND struct): handles whose struct was NOT the one
+//   Reset/Close went through keep the old map; the generator does not use them again after a Reset/Close.  When the facts
+//   say the session-level handle IS the registered struct (F14a repaired) there is no such latitude: every prepared handle
+//   is used after the Reset, prepared sessions are obtained after it from any handle, and after Close every one of them
+//   must answer with an error.  The oracle itself never looks at the facts: "shares the struct" is pointer identity.
 
 import (
 	"context"
@@ -40,6 +43,7 @@ import (
 	"fmt"
 	"math/rand"
 	"reflect"
+	"runtime"
 	"strings"
 	"sync"
 	"sync/atomic"
@@ -491,6 +495,7 @@ type c14mObs struct {
 	NTexts      int      `json:"texts"`
 	NPrepared   int      `json:"prepared_handles"`
 	Caches      int      `json:"caches"`
+	Structs     int      `json:"structs"` // distinct *PreparedStmtDB behind the live non-transaction prepared handles
 }
 
 type c14mEnv struct {
@@ -633,6 +638,16 @@ func c14mRunProg(p c14mProg) (obs *c14mObs) {
 		}
 	}
 	obs.Caches = len(muxes)
+	structs := map[*gorm.PreparedStmtDB]bool{}
+	for _, h := range env.handles {
+		if h == nil {
+			continue
+		}
+		if kind, pdb := c14mPoolOf(h); kind == "pdb" {
+			structs[pdb] = true
+		}
+	}
+	obs.Structs = len(structs)
 	structOf := func(i int) *gorm.PreparedStmtDB {
 		if i < 0 || i >= len(env.handles) || env.handles[i] == nil {
 			return nil
@@ -728,13 +743,16 @@ func c14mRunProg(p c14mProg) (obs *c14mObs) {
 			try(fmt.Sprintf("handle %d (shares the closed struct)", i), h)
 		}
 	}
-	if rootStruct != nil && cs == rootStruct {
-		for i, h := range env.handles {
-			if h == nil {
-				continue
-			}
-			if kind, _ := c14mPoolOf(h); kind == "pdb" || kind == "plain" {
-				try(fmt.Sprintf("prepared session obtained after Close from handle %d", i), c14mDerive(h, true, i))
+	for i, h := range env.handles {
+		if h == nil {
+			continue
+		}
+		if kind, _ := c14mPoolOf(h); kind == "pdb" || kind == "plain" {
+			// a prepared session obtained AFTER the Close: it must fail when the closed struct is the database's own
+			// cache, and whenever the new handle turns out to work through the closed struct itself
+			d := c14mDerive(h, true, i)
+			if _, dp := c14mPoolOf(d); (rootStruct != nil && cs == rootStruct) || dp == cs {
+				try(fmt.Sprintf("prepared session obtained after Close from handle %d", i), d)
 			}
 		}
 	}
@@ -777,6 +795,7 @@ type c14mGen struct {
 	hs     []c14mGenH
 	openTx int
 	groups int
+	reuse  bool // facts: Session(PrepareStmt) outside a transaction hands out the registered struct itself
 }
 
 func (g *c14mGen) pick(pred func(h c14mGenH) bool) int {
@@ -796,7 +815,12 @@ func (g *c14mGen) derive(h int, prep bool) c14mGenH {
 	n := g.hs[h]
 	if prep {
 		n.prepared = true
-		if !n.tx {
+		if !n.tx && g.reuse {
+			n.group = 0 // the registered struct itself: one group for every prepared handle
+			if g.groups == 0 {
+				g.groups = 1
+			}
+		} else if !n.tx {
 			n.group = g.groups // Session(PrepareStmt) outside a transaction builds a new struct
 			g.groups++
 		} else {
@@ -896,7 +920,7 @@ func (g *c14mGen) steps(n int, inTx int, depth int, allowPrepSession bool) []c14
 
 func c14mGenProg(rng *rand.Rand) c14mProg {
 	p := c14mProg{Prepare: rng.Intn(3) != 0, SkipDefTx: rng.Intn(3) == 0, ResetVia: -1, CloseVia: -1}
-	g := &c14mGen{rng: rng}
+	g := &c14mGen{rng: rng, reuse: c14Facts().SessReuse}
 	root := c14mGenH{prepared: p.Prepare, alive: true, txRoot: -1, group: -1}
 	if p.Prepare {
 		root.group = 0
@@ -930,7 +954,8 @@ func c14mGenProg(rng *rand.Rand) c14mProg {
 				}
 			}
 			// new prepared sessions copy the STORED struct's map: fresh only when the database's own cache was reset
-			p.Post = g.steps(3+rng.Intn(6), -1, 0, p.Prepare && grp == 0)
+			// (repaired F14a: always — there is one struct)
+			p.Post = g.steps(3+rng.Intn(6), -1, 0, g.reuse || (p.Prepare && grp == 0))
 			for i, h := range g.hs {
 				if h.alive && h.tx && h.txRoot == i {
 					p.Post = append(p.Post, c14mStep{Op: "end", H: i, Variant: rng.Intn(2)})
@@ -972,6 +997,7 @@ func c14mModesSuite(r *Result, rng *rand.Rand, n int) {
 		r.H("c14.modes.open", fmt.Sprintf("PrepareStmt=%v", p.Prepare))
 		r.H("c14.modes.prepared-handles", fmt.Sprint(o.NPrepared))
 		r.H("c14.modes.cache-objects", fmt.Sprint(o.Caches))
+		r.H("c14.modes.structs", fmt.Sprint(o.Structs))
 		r.H("c14.modes.reset", fmt.Sprint(p.ResetVia >= 0))
 		r.H("c14.modes.close-via-root", fmt.Sprint(p.CloseVia == 0))
 		var count func(ss []c14mStep)
@@ -998,11 +1024,15 @@ func c14mModesSuite(r *Result, rng *rand.Rand, n int) {
 }
 
 
-// ---- F14d probe: concurrent FIRST prepared sessions (Load-then-Store on cacheStore is not atomic) ----
+// ---- F14d probe: concurrent FIRST prepared sessions (is the registration in cacheStore atomic?) ----
 //
 // Witness of the Lean theorem C14_first_session_race_counterexample on the real code: goroutines released together call
-// Session(&Session{PrepareStmt: true}) on a database opened WITHOUT Config.PrepareStmt; when two of them miss the Load
-// before either Stores, each creates its own cache (distinct Mux).  Timing-dependent (a few rounds in a thousand).
+// Session(&Session{PrepareStmt: true}) on a database opened WITHOUT Config.PrepareStmt; with Load-then-Store, when two of
+// them miss the Load before either Stores, each creates its own cache (distinct Mux).  Timing-dependent.
+// Demanded in EVERY round, whatever the facts say (C14_first_session_atomic / _partial): the handles of one burst hold
+// ONE Mux.  More than one is the listed finding F14d while it is listed, an ordinary violation otherwise; and when the
+// regenerated facts say the registration is a LoadOrStore (`sc.cfg`: sess_atomic) it is in addition a broken tie — the
+// model instantiated with the facts (`sc.first` on the witness schedule) excludes it.
 // Control (C14_first_session_partial): with a cache already registered (Config.PrepareStmt root) the same burst must
 // always end on ONE cache — anything else is a violation.
 func c14mFirstSessionProbe(r *Result, rounds int) {
@@ -1018,16 +1048,22 @@ func c14mFirstSessionProbe(r *Result, rounds int) {
 		const g = 12
 		out := make([]*gorm.DB, g)
 		var wg sync.WaitGroup
-		barrier := make(chan struct{})
+		var ready, goFlag int32
 		for k := 0; k < g; k++ {
 			wg.Add(1)
 			go func(k int) {
 				defer wg.Done()
-				<-barrier
+				atomic.AddInt32(&ready, 1)
+				for atomic.LoadInt32(&goFlag) == 0 { // spinning start line: the calls begin within nanoseconds of each other
+					runtime.Gosched()
+				}
 				out[k] = db.Session(&gorm.Session{PrepareStmt: true})
 			}(k)
 		}
-		close(barrier)
+		for atomic.LoadInt32(&ready) < g {
+			runtime.Gosched()
+		}
+		atomic.StoreInt32(&goFlag, 1)
 		wg.Wait()
 		mux := map[interface{}]bool{}
 		for _, h := range out {
@@ -1049,28 +1085,45 @@ func c14mFirstSessionProbe(r *Result, rounds int) {
 		}
 		return len(mux), texts
 	}
-	seen, at, preps := 0, 0, 0
+	facts := c14Facts()
+	seen, at, preps, done := 0, 0, 0, 0
 	for i := 0; i < rounds && !expired(); i++ {
-		if m, _ := burst(true); m != 1 {
-			r.Violate(Violation{Kind: "e2e", Suite: "modes", Input: map[string]interface{}{"probe": "concurrent prepared sessions on a PrepareStmt root", "round": i},
-				Observed: fmt.Sprintf("%d distinct caches (Mux)", m), Expected: "one cache: it is registered before any session starts"})
-			return
+		done++
+		if i%8 == 0 {
+			if m, _ := burst(true); m != 1 {
+				r.Violate(Violation{Kind: "e2e", Suite: "modes", Input: map[string]interface{}{"probe": "concurrent prepared sessions on a PrepareStmt root", "round": i},
+					Observed: fmt.Sprintf("%d distinct caches (Mux)", m), Expected: "one cache: it is registered before any session starts"})
+				return
+			}
 		}
-		if m, t := burst(false); m > 1 && seen == 0 {
+		if m, t := burst(false); m > 1 {
 			seen, at, preps = m, i+1, t
 			break
 		}
 	}
 	r.Case("modes", "first-session-probe", true)
+	r.H("c14.first-session.rounds", fmt.Sprint(done))
 	if seen > 0 {
 		what := fmt.Sprintf("gorm API: 12 goroutines call Session(PrepareStmt) at the same time on a database opened without Config.PrepareStmt: %d cache objects (round %d); the same text through every handle: %d PrepareContext calls", seen, at, preps)
+		if facts.OK && facts.SessAtomic {
+			// the model the theorems are about (registration by LoadOrStore) does not have this behaviour
+			model := "?"
+			if outs, err := AskLean([][]interface{}{{"sc.first", [][]interface{}{{"load", 0}, {"load", 1}, {"build", 0}, {"build", 1}}}}); err == nil && len(outs) == 1 {
+				model = string(outs[0])
+			}
+			r.Violate(Violation{Kind: "correspondence", Suite: "modes", Input: "first-session-probe", Observed: what,
+				Expected: "model with the regenerated registration facts (sess_atomic) on the witness schedule: " + model,
+				Note: "the facts say DB.Session registers with LoadOrStore, the real code still ends with several caches"})
+		}
 		if listed("F14d-C14-concurrent-first-session") {
 			r.KnownFinding("F14d-C14-concurrent-first-session", what)
 		} else {
 			r.Violate(Violation{Kind: "e2e", Suite: "modes", Input: "first-session-probe", Observed: what, Expected: "one cache per gorm.Open"})
 		}
+	} else if facts.OK && facts.SessAtomic {
+		r.Note("probe F14d (concurrent first prepared sessions): one cache in each of %d bursts (facts: DB.Session registers with LoadOrStore)", done)
 	} else {
-		r.Note("probe F14d (concurrent first prepared sessions): not reproduced in %d rounds (timing-dependent)", rounds)
+		r.Note("probe F14d (concurrent first prepared sessions): not reproduced in %d rounds (timing-dependent)", done)
 	}
 }
 
@@ -1112,6 +1165,9 @@ func init() {
 			nDerive, nModes, nFirst = 8000, 2500, 20000
 		} else if tier == "search" {
 			nDerive, nModes, nFirst = 3000, 1500, 3000
+		}
+		if !listed("F14d-C14-concurrent-first-session") && tier != "thorough" {
+			nFirst *= 2 // claimed repaired: a timing-dependent witness gets twice the bursts before the run accepts that claim
 		}
 		c14mDeriveSuite(r, rng, nDerive)
 		c14mModesSuite(r, rng, nModes)
